@@ -217,9 +217,8 @@ def run_case(c):
         return d_h(arg(c["t"]).to_hugr(ctx))
     if op == "poly":                     # CheckedFunctionDef.monomorphize: instantiate_partial + to_hugr_poly
         f = fty(c["f"])
-        m = tuple(oarg(x) for x in c["m"])
-        mono_ty = f.instantiate_partial(m)
-        h = mono_ty.to_hugr_poly(mk_ctx(m))
+        mono_ty = f.instantiate_partial(tuple(oarg(x) for x in c["m"]))
+        h = mono_ty.to_hugr_poly(mk_ctx(c["m"]))
         return [[d_hparam(p) for p in h.params], d_h(h.body)]
     if op == "sig_m":                    # the signature as the body compiler sees it (ctx with mono args)
         f = fty(c["f"])
